@@ -93,10 +93,15 @@ def sameRep : Rep → Rep → Prop
   | .array vs o c, .array vs' o' c' => o = o' ∧ c = c' ∧ denOpts vs = denOpts vs'
   | .generic xs, .generic ys =>
     xs.length = ys.length ∧ ∀ v, v ∈ denList xs ↔ v ∈ denList ys   -- a permutation up to member denotation
+  | .dict m, .dict m' => m.length = m'.length ∧ ∀ v, v ∈ denDict m ↔ v ∈ denDict m'
+  | .relation ns rows, .relation ns' rows' =>
+    sortStrs ns = sortStrs ns' ∧ rows.length = rows'.length ∧ ∀ v, v ∈ denRows ns rows ↔ v ∈ denRows ns' rows'
+  | .union bs, .union bs' =>
+    bs.length = bs'.length ∧ ∀ k, (lookupAttr k bs).map den = (lookupAttr k bs').map den
   | _, _ => False
 
 def wf_unique_full : Prop :=
-  ∀ a b : Rep, wf a = true → wf b = true → den a = den b → ctorTag a = ctorTag b
+  ∀ a b : Rep, wf a = true → wf b = true → den a = den b → sameRep a b
 
 theorem wf_unique_partial (a b : Rep) (ha : wf a = true) (hb : wf b = true)
     (fa : frag a = true) (fb : frag b = true) (h : den a = den b) : sameRep a b := by
